@@ -122,6 +122,8 @@ def run(ctx):
     ctx.rule("R6", "a re-used molecule reports the same gap as a cold start: the gap is read before orbital-character tracking permutes the energies (shared with C14-R3)")
     from .c14 import check_gap_before_tracking
     check_gap_before_tracking(ctx, repo.mod("seqm/basics.py"), "R6")
+    ctx.rule("R7", "the iterated map does not remember the start density: nothing computed once from the initial density enters the iteration except the iterate and loop-carried state (shared with C03-R8)")
+    check_no_start_memory(ctx, "R7")
     _threshold_integrity(ctx)
     from .c05 import check_spin_flatten
     check_spin_flatten(ctx, "R5")
@@ -352,3 +354,99 @@ def run(ctx):
                              f"`{norm(x)}` reads an attribute that is never assigned on a Molecule: this code path raises AttributeError for every input that reaches it")
     ctx.check(n_r >= 400, "R3", mm, mm.cls("Molecule"), "Molecule", "attribute reads", f"{n_r} attribute reads on molecule/mol parameters resolve to one of {len(mol_attrs)} assigned attributes",
               f"only {n_r} attribute reads inventoried")
+
+
+# ---------------------------------------------------------------------------------------------------------------------------------------------
+# R7 -- the iterated map does not remember the start density
+# ---------------------------------------------------------------------------------------------------------------------------------------------
+_SHAPE_ONLY_ATTRS = {"shape", "dtype", "device", "ndim", "is_cuda", "requires_grad"}
+_SHAPE_ONLY_CALLS = {"dim", "size", "numel", "new_zeros", "new_ones", "new_empty", "new_full", "type", "get_device"}
+_LIKE_FUNCS = {"torch.zeros_like", "torch.ones_like", "torch.empty_like", "torch.full_like", "torch.rand_like", "torch.randn_like"}
+
+
+def _value_reads(expr, names):
+    """names of `names` whose *values* (not only shape / dtype / device) are read by the expression"""
+    out = set()
+    skip = set()
+    for n in ast.walk(expr):
+        if isinstance(n, ast.Attribute) and isinstance(n.value, ast.Name) and n.value.id in names and n.attr in (_SHAPE_ONLY_ATTRS | _SHAPE_ONLY_CALLS):
+            skip.add(id(n.value))
+        if isinstance(n, ast.Call) and (call_name(n) or "") in _LIKE_FUNCS and n.args and isinstance(n.args[0], ast.Name):
+            skip.add(id(n.args[0]))
+        if isinstance(n, ast.Call) and isinstance(n.func, ast.Name) and n.func.id in ("len",) and n.args and isinstance(n.args[0], ast.Name):
+            skip.add(id(n.args[0]))
+    for n in ast.walk(expr):
+        if isinstance(n, ast.Name) and isinstance(n.ctx, ast.Load) and n.id in names and id(n) not in skip:
+            out.add(n.id)
+    return out
+
+
+def check_no_start_memory(ctx, rid="R7"):
+    """Every SCF driver iterates a map P -> P' whose fixed point is the answer.  For the answer to be independent of the start density (cold start, previous geometry,
+    perturbed / un-normalised density: C04, and C03's "any initial density"), nothing computed once from the start density before the iteration loop may enter the
+    iteration, except through the iterate itself and the loop-carried state that every pass overwrites.  Rule: in each driver, a local that (transitively) reads the
+    *value* of the density parameter before the main loop, is never assigned inside the loop, and is read inside the loop, is a memory of the start density."""
+    repo = ctx.repo
+    scf = repo.mod(SCF)
+    n_drv = 0
+    for d in ("scf_forward0", "scf_forward1", "scf_forward2", "scf_forward3"):
+        if not scf.has_func(d):
+            continue
+        f = scf.func(d)
+        params = [a.arg for a in f.args.args]
+        if "P" not in params:
+            raise AnalysisError(f"{d}: density parameter `P` not found")
+        # main loops: outermost loops of the function body that contain a Fock build or a density build
+        def is_main(st):
+            return isinstance(st, (ast.For, ast.While)) and any("fock" in ((call_name(c) or callee_attr(c) or "").lower()) or (call_name(c) or callee_attr(c) or "") == "make_Pnew"
+                                                                for c in calls_in(st))
+        top = list(f.body)
+        loops = [st for st in top if is_main(st)]
+        if not loops:
+            # loops nested in a with / if at the top level
+            for st in top:
+                if isinstance(st, (ast.With, ast.If, ast.Try)):
+                    loops += [x for x in ast.walk(st) if is_main(x) and not any(is_main(p) and p is not x and x in ast.walk(p) for p in ast.walk(st))]
+        if not loops:
+            raise AnalysisError(f"{d}: iteration loop not found")
+        n_drv += 1
+        loop = loops[0]
+        in_loop = {id(x) for x in ast.walk(loop)}
+        assigned_in_loop = set()
+        for x in ast.walk(loop):
+            if isinstance(x, (ast.Assign, ast.AugAssign, ast.AnnAssign)):
+                tg = x.targets if isinstance(x, ast.Assign) else [x.target]
+                for t in tg:
+                    for y in ast.walk(t):
+                        if isinstance(y, ast.Name):
+                            assigned_in_loop.add(y.id)       # (stores into `name[...]` count: the loop rewrites the buffer)
+            if isinstance(x, (ast.For, ast.comprehension)):
+                for y in ast.walk(x.target):
+                    if isinstance(y, ast.Name):
+                        assigned_in_loop.add(y.id)
+            if isinstance(x, ast.Call) and isinstance(x.func, ast.Attribute) and x.func.attr.endswith("_") and isinstance(x.func.value, ast.Name):
+                assigned_in_loop.add(x.func.value.id)        # in-place method on the buffer
+        # pre-loop definitions in source order
+        tainted = {"P": None}
+        pre = [st for st in ast.walk(f) if isinstance(st, ast.Assign) and id(st) not in in_loop and getattr(st, "lineno", 0) < loop.lineno]
+        pre.sort(key=lambda s: s.lineno)
+        for st in pre:
+            src = _value_reads(st.value, set(tainted))
+            if src:
+                for t in st.targets:
+                    for y in ([t] if isinstance(t, ast.Name) else [e for e in ast.walk(t) if isinstance(e, ast.Name) and isinstance(e.ctx, ast.Store)]):
+                        if isinstance(y, ast.Name) and y.id != "P":
+                            tainted.setdefault(y.id, st)
+        memory = sorted(nm for nm in tainted if nm != "P" and nm not in assigned_in_loop and _value_reads(loop, {nm}))
+        for nm in memory:
+            st = tainted[nm]
+            use = next(x for x in ast.walk(loop) if isinstance(x, ast.Name) and x.id == nm and isinstance(x.ctx, ast.Load))
+            ctx.fail(rid, scf, st, d, st,
+                     f"{d}: `{short(st, 70)}` is computed once from the start density and read in every iteration (line {use.lineno}) without ever being updated: the iteration "
+                     f"remembers its start, so the converged result depends on the initial density (a restart from a scaled / perturbed / other-charge density converges to a "
+                     f"different, wrong answer that is still flagged converged)")
+        if not memory:
+            ctx.ok(rid, f"{SCF} {d}", f"{d}: no loop-invariant value derived from the start density enters the iteration ({len(tainted) - 1} pre-loop locals read it, all are loop-carried state "
+                   f"or shape / dtype only)")
+    if n_drv < 3:
+        raise AnalysisError(f"only {n_drv} SCF drivers analysed for start-density memory")
